@@ -19,7 +19,7 @@ RULE = ('Part 1, complete grid: scripts of one session shape {read-only, optimis
         'body raises, explicit rollback(), commit() followed by more work} x {connection already pooled, pool empty so that the '
         'session has to connect}; every call index k of the fault-free DB-API log (connect, cursor, execute, executemany, commit, '
         'rollback, close) is failed with OperationalError before the call, OperationalError after the call was performed and '
-        'IntegrityError before every execute, and the first two also chained with: the next rollback fails (before / after), '
+        'IntegrityError before every execute, and the first of these also chained with: the next rollback fails (before / after), '
         'the next close fails, rollback and close both fail, the very next call of any kind fails too, and (script with a second '
         'session) the next connect fails. Part 2, generated: 2-3 threads x 1-2 sessions of those shapes under a deterministic '
         'hand-off (one runnable thread at a time; switches only between operations, between sessions and when a thread would '
@@ -134,37 +134,6 @@ def run(ctx):
     template = H.make_template(os.path.join(ctx.workdir, 'template.sqlite'))
     path = os.path.join(ctx.workdir, 'run.sqlite')
 
-    # ---------------- part 1: complete grid, sharded by cell index
-    logs = {}
-    for ci, (script, cname, chain) in enumerate(grid_cells()):
-        if ci % ctx.nshards != ctx.shard:
-            continue
-        key = chash(script)
-        if key not in logs:
-            info = {}
-            msg = H.run_script_case(template, path, script, [], info)
-            ctx.case(key=[script, 'nofault'], nontrivial=False, classes=['part:grid', 'fault:none'])
-            judge(ctx, {'script': script, 'plan': []}, msg)
-            if info.get('natural_errors'):
-                raise RuntimeError('fault-free script %r fails on its own: %r' % (script, info['natural_errors']))
-            logs[key] = info.get('calls', [])
-        calls = logs[key]
-        for k, call in enumerate(calls):
-            ctx.check_time()
-            for when, exc in primaries(call):
-                if chain and exc != 'operational':
-                    continue
-                plan = [{'at': k, 'when': when, 'exc': exc}] + [dict(e) for e in chain]
-                nt = bool(call.get('probe'))
-                classes = ['part:grid', 'chain:' + cname, 'kind:' + call['kind'], 'shape:' + script[0]['kind'], 'when:' + when]
-                if nt:
-                    classes.append('nontrivial')
-                case = {'script': script, 'plan': plan}
-                ctx.case(key=case, nontrivial=nt, classes=classes,
-                         sample={'script': script, 'plan': plan, 'call': call['kind'], 'sql': (call['sql'] or '')[:50],
-                                 'lock_held_at_fault': nt} if (k + ci) % 37 == 5 else None)
-                judge(ctx, case, H.run_script_case(template, path, script, plan))
-
     # ---------------- part 2: generated actors + schedules, every call index failed once
     from hypothesis import strategies as st
     sess = st.fixed_dictionaries({'kind': st.sampled_from([k for k in H.KINDS if k != 'ddl_api'] + ['multi', 'multi_rev', 'multi_immediate']),
@@ -206,6 +175,39 @@ def run(ctx):
     ctx.run_test(t, {'actors': actors, 'schedule': schedule}, max_examples=ctx.scale(6, 40), name='schedules')
     if ctx.violation is None and 'violation' in found:
         ctx.violation = found['violation']
+    if ctx.violation is not None:
+        return
+
+    # ---------------- part 1: complete grid, sharded by cell index
+    logs = {}
+    for ci, (script, cname, chain) in enumerate(grid_cells()):
+        if ci % ctx.nshards != ctx.shard:
+            continue
+        key = chash(script)
+        if key not in logs:
+            info = {}
+            msg = H.run_script_case(template, path, script, [], info)
+            ctx.case(key=[script, 'nofault'], nontrivial=False, classes=['part:grid', 'fault:none'])
+            judge(ctx, {'script': script, 'plan': []}, msg)
+            if info.get('natural_errors'):
+                raise RuntimeError('fault-free script %r fails on its own: %r' % (script, info['natural_errors']))
+            logs[key] = info.get('calls', [])
+        calls = logs[key]
+        for k, call in enumerate(calls):
+            ctx.check_time()
+            for when, exc in primaries(call):
+                if chain and (exc != 'operational' or when != 'before'):
+                    continue
+                plan = [{'at': k, 'when': when, 'exc': exc}] + [dict(e) for e in chain]
+                nt = bool(call.get('probe'))
+                classes = ['part:grid', 'chain:' + cname, 'kind:' + call['kind'], 'shape:' + script[0]['kind'], 'when:' + when]
+                if nt:
+                    classes.append('nontrivial')
+                case = {'script': script, 'plan': plan}
+                ctx.case(key=case, nontrivial=nt, classes=classes,
+                         sample={'script': script, 'plan': plan, 'call': call['kind'], 'sql': (call['sql'] or '')[:50],
+                                 'lock_held_at_fault': nt} if (k + ci) % 37 == 5 else None)
+                judge(ctx, case, H.run_script_case(template, path, script, plan))
 
 
 def replay(case):
